@@ -64,6 +64,31 @@ def run_op_table(prog, tier, repo):
         return [res]
     wtable, wbody = wasm_op_table(prog, res)
     sym, wrappers, emitter = _js_tables(prog)
+    # single source: every i32 arithmetic / comparison instruction the wasm printer can spell comes from that table. An
+    # instruction name written out elsewhere in the printer is an alternative lowering of some operator that the row-by-row
+    # comparison below never sees (e.g. `x % 8` emitted as `i32.and x 7`, which differs from TypeScript's `%` for negative x).
+    if wbody is not None:
+        allowed = {'(i32.': 'prefix completed with the table\'s mnemonic', '(i32.const ': 'integer constants',
+                   '(i32.xor (ref.eq ': '`!=` on references: negated ref.eq',
+                   ') (i32.const 1))': 'closing part of the negated ref.eq'}
+        spelled = {}
+        for bl in wbody.blocks:
+            if bl.cleanup:
+                continue
+            ops = [st[2][1] for st in bl.stmts if st[0] == 'a' and st[2][0] == 'use'] + \
+                  ([o for o in bl.term[3]] if bl.term[0] == 'call' else [])
+            line = bl.term[7] if bl.term[0] == 'call' else (bl.stmts[0][3] if bl.stmts and bl.stmts[0][0] == 'a' else None)
+            for o in ops:
+                if o[0] == 'k' and o[1].v.startswith('"') and '(i32.' in o[1].v:
+                    spelled.setdefault(o[1].v.strip('"'), line)
+        for txt, line in sorted(spelled.items()):
+            key = f'wasm-spelling:{txt.strip()}'
+            if txt in allowed:
+                res.ok(key, wbody.loc(line), allowed[txt])
+            else:
+                res.violation(key, wbody.loc(line), f'{wbody.name} spells the instruction `{txt.strip()}` outside the operator table: some '
+                              f'operator is lowered to it on some path, and that lowering is not compared with the TypeScript form '
+                              f'(a mask instead of `rem_s`, for instance, differs from `%` on negative operands)')
     if wtable is None or sym is None or wrappers is None:
         res.cannot_decide('operator tables (wasm mnemonic / JS symbol / JS wrapper) in samlang_ast')
         return [res]
